@@ -38,8 +38,16 @@ def known(f):
             return "rerun:avail-learns-exit-ecall: a further value-analysis run turns an ecall into a known exit after the last termination step cut an edge"
     # the other recorded finding: the node behind an exit that was cut off by the LAST termination step (it has no
     # predecessor any more, before and after the extra run) still carries the facts computed before the cut
-    m = re.search(r"pass=a node=\[(\d+) (?:(?!was=).)*? <\[\] (?:(?!was=).)*?\] was=\[(\d+) .*? <\[\] ", f["why"])
-    if m and m.group(1) == m.group(2):
+    m = re.search(r"pass=a node=\[(\d+) N\((\w+) [^|]*\| (\d+)\.(?:(?!was=).)*? <\[\] F\[[^\]]*\] ri\[\] (?:(?!was=).)*?\] was=\[(\d+) .*? <\[\] ", f["why"])
+    behind_exit = False
+    if m and m.group(1) == m.group(4) and m.group(2) != "progentry" and isinstance(f.get("files"), list) and len(f["files"]) == 1:
+        # ... and it is the instruction right behind an ecall in the source
+        lines = (f["files"][0][1] or "").split("\n")
+        j = int(m.group(3)) - 1
+        while j >= 0 and (not lines[j].strip() or lines[j].strip().endswith(":") or lines[j].strip().startswith("#")):
+            j -= 1
+        behind_exit = j >= 0 and re.sub(r"^\w+:\s*", "", lines[j].strip()).split("#")[0].strip().lower() == "ecall"
+    if behind_exit:
         return "rerun:stale-facts-behind-late-exit: a node cut off by the last ecall-termination step keeps value facts computed before the cut"
     return None
 
